@@ -332,6 +332,11 @@ class PathBasedRoutingProblem(RoutingProblem):
             logger.debug(f"Unvisited node: {self.node_names[u]}, "+\
                          f"loading: {self.nodes[u].get_load()}")
             new_node = f"mf_Dum_{u}"
+            # (an earlier call may already have used this name)
+            suffix = 0
+            while new_node in self.node_names:
+                suffix += 1
+                new_node = f"mf_Dum_{u}_{suffix}"
             # Add node - remember, node is defined by DEMAND = -LOADING
             self.add_node(new_node, -new_node_loading)
             new_node_index = self.node_names.index(new_node)
